@@ -69,7 +69,7 @@ Report(mm, p, code, detail) ==
 Check(mm, cond, p, code, detail) == IF cond THEN mm ELSE Report(mm, p, code, detail)
 
 M0 == [ reqs |-> EmptyFn, ups |-> EmptyFn, upseen |-> {}, holds |-> EmptyFn, taint |-> {}, roles |-> EmptyFn, gone |-> {}, frozen |-> FALSE,
-        vals |-> EmptyFn, maxd |-> EmptyFn, lsnap |-> <<>>, lvals |-> <<>>, vkeys |-> {}, ldr |-> "L", nv |-> 0, tr |-> 0, name |-> "" ]
+        vals |-> EmptyFn, maxd |-> EmptyFn, upof |-> EmptyFn, lsnap |-> <<>>, lvals |-> <<>>, vkeys |-> {}, ldr |-> "L", nv |-> 0, tr |-> 0, name |-> "" ]
 
 HoldsOf(mm, d, k) == IF <<d, k>> \in DOMAIN mm.holds THEN mm.holds[<<d, k>>] ELSE <<>>
 DepthSum(H) == FoldLeft(LAMBDA acc, h : acc + h.depth, 0, H)
@@ -106,12 +106,16 @@ StepReq(mm, e) ==
     IN [mm EXCEPT !.reqs = SetFn(@, e.id, r), !.taint = IF clash THEN @ \cup {<<d, e.key>>} ELSE @]
 
 \* requests of a node that were open when one of its upstream connections broke / its leader went away / its role changed
-InFlightOn(mm, c) == {id \in DOMAIN mm.reqs : mm.reqs[id].conn = c /\ mm.reqs[id].st = "open" /\ mm.reqs[id].uprid # 0}
-Break(mm, n) == [mm EXCEPT !.reqs = [id \in DOMAIN @ |-> IF @[id].node = n /\ @[id].st = "open"
-                                                         THEN [@[id] EXCEPT !.broken = TRUE, !.nfl = IF @ = 0 THEN Cardinality(InFlightOn(mm, mm.reqs[id].conn)) ELSE @]
-                                                         ELSE @[id]]]
+\* a later request of the same connection travelled on the same upstream connection (rollbackLatestCommand knows only the
+\* latest request written to an upstream)
+LaterForwarded(mm, id) == {x \in DOMAIN mm.reqs : x > id /\ mm.reqs[x].conn = mm.reqs[id].conn /\ mm.reqs[x].uprid \in DOMAIN mm.upof
+                                                  /\ mm.reqs[id].uprid \in DOMAIN mm.upof /\ mm.upof[mm.reqs[x].uprid] = mm.upof[mm.reqs[id].uprid]} # {}
+Break(mm, n) == [mm EXCEPT !.reqs = [id \in DOMAIN @ |-> IF @[id].node = n /\ @[id].st = "open" THEN [@[id] EXCEPT !.broken = TRUE] ELSE @[id]]]
 
-StepUpReq(mm, e) == [mm EXCEPT !.upseen = @ \cup {e.rid}]
+StepUpReq(mm, e) == [mm EXCEPT !.upseen = @ \cup {e.rid}, !.upof = SetFn(@, e.rid, e.up)]
+\* one upstream connection of node n broke: the open requests IT carried
+BreakUp(mm, n, u) == [mm EXCEPT !.reqs = [id \in DOMAIN @ |-> IF @[id].node = n /\ @[id].st = "open" /\ @[id].uprid \in DOMAIN mm.upof /\ mm.upof[@[id].uprid] = u
+                                                              THEN [@[id] EXCEPT !.broken = TRUE] ELSE @[id]]]
 \* (a grant seen on the wire also tells how full the key has been, whether or not the client ever hears of it)
 StepUpReply(mm, e) == [mm EXCEPT !.ups = SetFn(@, e.rid, [res |-> e.res, lid |-> e.lid, key |-> e.key, lc |-> e.lc, cnt |-> e.cnt, lrc |-> e.lrc, rc |-> e.rc, datap |-> e.datap]),
                                  !.maxd = IF e.ct = 1 /\ e.res = SUCCED THEN SetFn(@, e.key, Max({e.lc, IF e.key \in DOMAIN @ THEN @[e.key] ELSE 0})) ELSE @]
@@ -296,8 +300,8 @@ StepUnanswered(mm, e) ==
        THEN \* forwarded, its upstream connection broke, and the node told the client nothing: neither refused nor relayed
             \* (rollbackLatestCommand answers only the latest request written to the upstream)
             Report(m1, "C10", "request-via-follower-never-answered",
-                   [cause |-> IF r.nfl > 1 THEN "upstream-broke-with-several-requests-in-flight" ELSE "upstream-broke",
-                    rid |-> r.id, node |-> r.node, conn |-> r.conn, proto |-> r.proto, in_flight |-> r.nfl, leader_answered |-> hasUp])
+                   [cause |-> IF LaterForwarded(mm, r.id) THEN "upstream-broke-request-was-not-the-latest-forwarded" ELSE "upstream-broke",
+                    rid |-> r.id, node |-> r.node, conn |-> r.conn, proto |-> r.proto, leader_answered |-> hasUp])
        ELSE IF hasUp THEN Report(m1, "C10", "leader-reply-not-relayed", [rid |-> r.id, node |-> r.node, conn |-> r.conn, leader |-> mm.ups[r.uprid].res])
        ELSE Report(m1, "C10", "request-never-answered", [rid |-> r.id, node |-> r.node, conn |-> r.conn, forwarded |-> (r.uprid # 0)])
 
@@ -391,7 +395,7 @@ Step(mm, e) ==
       [] e.e = "unanswered" -> StepUnanswered(mm, e)
       [] e.e = "abandoned"  -> StepAbandoned(mm, e)
       [] e.e = "sendfail"   -> StepAbandoned(mm, e)
-      [] e.e \in {"cut", "up_closed"} -> Break(mm, e.node)
+      [] e.e \in {"cut", "up_closed"} -> BreakUp(mm, e.node, e.up)
       [] e.e = "gone"       -> [Break(mm, e.node) EXCEPT !.gone = @ \cup {e.node}]
       [] e.e = "back"       -> [mm EXCEPT !.gone = @ \ {e.node}]
       [] e.e = "frozen"     -> [mm EXCEPT !.frozen = TRUE]
